@@ -335,7 +335,7 @@ type replayFile struct {
 
 func saveReplay(id string, r *vioReport) string {
 	h := sha1.Sum([]byte(r.Harness + "|" + r.Sig))
-	dir := filepath.Join(verifDir, "replays", id, fmt.Sprintf("%s-%x", r.Harness, h[:4]))
+	dir := filepath.Join(envOr("VERIF_REPLAY_DIR", filepath.Join(verifDir, "replays")), id, fmt.Sprintf("%s-%x", r.Harness, h[:4]))
 	os.MkdirAll(dir, 0o755)
 	f := filepath.Join(dir, "case.json")
 	rf := replayFile{Property: id, Pkg: r.Pkg, Signature: r.Sig, Message: r.Msg, Native: r.Native, Case: r.Case,
@@ -382,7 +382,7 @@ func writeEvidenceFailure(id, tier string, seed int, why string, wall float64) {
 		"coverage": map[string]interface{}{"evaluations": 0, "distinct_nontrivial": 0, "explanation": why},
 		"wall_s":   wall, "violations": 0, "inconclusive": []string{why},
 	}
-	writeJSON(filepath.Join(verifDir, "evidence", id+".json"), ev)
+	writeJSON(filepath.Join(envOr("VERIF_EVIDENCE_DIR", filepath.Join(verifDir, "evidence")), id+".json"), ev)
 }
 
 func writeJSON(path string, v interface{}) {
@@ -464,7 +464,7 @@ func writeEvidence(id, tier string, seed int, spec *CheckSpec, runs []HarnessRun
 		"property_id": id, "tier": tier, "seed": seed, "level": "model_checking",
 		"coverage": cov, "assumptions": spec.Assumptions, "wall_s": round2(wall), "violations": violations,
 	}
-	writeJSON(filepath.Join(verifDir, "evidence", id+".json"), ev)
+	writeJSON(filepath.Join(envOr("VERIF_EVIDENCE_DIR", filepath.Join(verifDir, "evidence")), id+".json"), ev)
 }
 
 func round2(x float64) float64 { return float64(int64(x*100+0.5)) / 100 }
